@@ -124,7 +124,7 @@ def configs(thorough, seed):
     methods = [('eigen', True), ('eigen', False), ('inverse', False)]
     kls = [1e-6, 1e-3, 1e3, ['cyc', [1e-6, 1e3, 1e-3]], None]
     lrs = [0.0, 0.1, 1.0, ['cyc', [0.1, 1.0, 0.0]]]
-    models = ['lin1', 'mlp2', 'mlp3', 'mixed'] + (['conv'] if thorough
+    models = ['lin1', 'mlp2', 'mlp3', 'mixed', 'nbfirst'] + (['conv'] if thorough
                                                   else [])
     for model, (m, pre), kl, lr, zero in itertools.product(
             models, methods, kls, lrs, (False, True)):
@@ -149,7 +149,8 @@ def configs(thorough, seed):
             k = dict(damping=0.05, factor_decay=0.5, kl_clip=kl, lr=lr,
                      compute_method=m, compute_eigenvalue_outer_product=pre,
                      grad_worker_fraction=strat)
-            cfg = {'model': 'mlp3', 'dtype': 'f32', 'batch': 2,
+            cfg = {'model': ('mlp3', 'nbfirst')[len(out) % 2],
+                   'dtype': 'f32', 'batch': 2,
                    'world': world, 'seed': seed, 'kfac': k, 'sgd_lr': 0.0,
                    'loss_mult': 5.0, 'history': [['train']] * 2}
             for sname in ('S0-lowest-eager', 'S3-lowest-lazy-poison'):
